@@ -31,7 +31,7 @@ class Gen:
             max_t=4, max_m=4, p_nonexcl=0.25, p_nested=0.15, p_struct=0.45, p_alias=0.2,
             p_rel=0.5, p_two_mods=0.2, p_fsm=0.12, p_wit=0.5, p_validate=0.2, p_enable=0.3,
             p_defect=0.0, sched="eager", p_body_in_struct=0.15, rdep_rel=True, nested=True,
-            p_rdyrun=0.0, p_badrun=0.0, p_chain=0.0, p_relalias=0.0, p_xmod=0.0, p_constenable=0.0, p_always=0.0, wit_rounds=1, p_fwdarg=0.0, fwd_safe=True, p_xcall=0.0, p_dblrel=0.0, p_widecond=0.0, p_rdepconf=0.0,
+            p_rdyrun=0.0, p_badrun=0.0, p_chain=0.0, p_relalias=0.0, p_xmod=0.0, p_constenable=0.0, p_always=0.0, wit_rounds=1, p_fwdarg=0.0, fwd_safe=True, p_xcall=0.0, p_dblrel=0.0, p_widecond=0.0, p_rdepconf=0.0, p_orx=0.0,
         )
         self.opt.update(opt)
         self.nin = 0
@@ -64,7 +64,10 @@ class Gen:
                 kind="M", ready=self.inp() if r.random() < 0.8 else 0, nonexcl=nonexcl,
                 single=r.random() < 0.04, hasarg=hasarg,
                 validate=1 if (hasarg and r.random() < o["p_validate"]) else 0,
-                comb="or" if (nonexcl and hasarg) else "mux", parent=0, ch=[],
+                # custom combiners of nonexclusive methods: "or" (OR of the active arguments) and "orx" (the same,
+                # XOR 1: not the identity even when a single call is active)
+                comb=(r.choice(["or", "orx"]) if o["p_orx"] > 0 and r.random() < o["p_orx"] else "or") if (nonexcl and hasarg) else "mux",
+                parent=0, ch=[],
                 mod=(2 if (nmods == 2 and r.random() < 0.5) else 1), alias=0))
         for i in range(nt):
             self.bodies.append(dict(
@@ -623,6 +626,9 @@ def build(design, scheduler=None, netlist_only=False):
     def or_combiner(m, args, runs):
         return {"a": reduce(lambda x, y: x | y, [Mux(runs[i], args[i].a, 0) for i in range(len(args))], Const(0, NARGBITS))}
 
+    def orx_combiner(m, args, runs):
+        return {"a": or_combiner(m, args, runs)["a"] ^ 1}
+
     def validator(a):
         return a != 3
 
@@ -685,7 +691,7 @@ def build(design, scheduler=None, netlist_only=False):
                         if B["nonexcl"]:
                             kw["nonexclusive"] = True
                             if B["hasarg"]:
-                                kw["combiner"] = or_combiner
+                                kw["combiner"] = orx_combiner if B["comb"] == "orx" else or_combiner
                         if B["validate"]:
                             kw["validate_arguments"] = validator
                         if B["single"]:
